@@ -247,11 +247,19 @@ class Ctx(object):
         os.makedirs(d, exist_ok=True)
         name = "%s-s%d-%03d.json" % (self.tier, self.seed, self._replay_n)
         path = os.path.join(d, name)
-        if self._replay_n <= 25:
+        self._per_mech = getattr(self, "_per_mech", collections.Counter())
+        self._per_mech[mech] += 1
+        if self._per_mech[mech] <= 3 and len(self._per_mech) <= 60:
             with open(path, "w") as f:
                 json.dump({"property": self.pid, "mechanism": mech, "what": what,
                            "tier": self.tier, "seed": self.seed, "replay": replay},
                           f, indent=1, default=str)
+        else:
+            # keep the line format valid: point at the first replay of this mechanism
+            for m2, _w2, p2 in self.violations:
+                if m2 == mech:
+                    path = p2
+                    break
         self.violations.append((mech, what, path))
         return True
 
